@@ -101,3 +101,116 @@ Theorem C20_example :
   /\ length (content ex_written) = 4%nat.
 Proof. exact example. Qed.
 Print Assumptions C20_example.
+
+(* ---------------------------------------------------------------------------------------------------------------
+   TIE TO THE SOURCE.  Gen/GenJets.v is regenerated on every run from the CURRENT text of JetAnalysis.py
+   (tools/py2coq/gen_jets.py: the method bodies as written, over the fixed runtime Model/JetsRt.v).  The theorems
+   below state that the hand model used above EQUALS the regenerated methods, for all arguments - so the theorems
+   above are about what the source says now.  o_* are the fastjet oracles (clustering, perp/eta/phi, delta_phi_to)
+   and np.sqrt; the model's dR is instantiated with the distance formula of the source (dR_of). *)
+From Coq Require Import String.
+From SX Require Import Model.JetsRt Gen.GenJets Proofs.C20_Source.
+
+(* __init__ leaves every attribute None; defaults of the keyword parameters *)
+Theorem C20_source_defaults :
+  gen_new = JSelf None None None None None
+  /\ gen_default_write_jet_output_new_file = false
+  /\ gen_default_perform_jet_finding_assoc_only_charged = true
+  /\ gen_default_perform_jet_finding_jet_algorithm = GModel AntiKt.
+Proof. exact source_defaults. Qed.
+Print Assumptions C20_source_defaults.
+
+(* __initialize_and_check_parameters = check_params: the R test, the None defaults, the re-ordering test, the
+   negative-bound test, the exception class, and which attribute each value lands in *)
+Theorem C20_source_params :
+  forall self hd al R eta pt ch,
+  gen_initialize_and_check_parameters self hd R eta pt
+  = match check_params (Params al R eta pt ch) with
+    | Err e => PErr (exn_of e)
+    | Ok (w, p) => POk (self_after self hd R w p, tt)
+    end.
+Proof. exact source_params. Qed.
+Print Assumptions C20_source_params.
+
+(* create_fastjet_PseudoJets: (px, py, pz, E) of every hadron, in order *)
+Theorem C20_source_pseudojets :
+  forall ev : event, gen_create_fastjet_PseudoJets ev = map pmom ev.
+Proof. exact source_pseudojets. Qed.
+Print Assumptions C20_source_pseudojets.
+
+(* fill_associated_particles = fill: the unset-status exception, the status / charge skips with their operators and
+   order, dR < R with dR as the source computes it, append in event order *)
+Theorem C20_source_fill :
+  forall o_eta o_dphi o_sqrt self hd R jet i ev s oc,
+  hadron_data_ self = Some hd -> jet_R_ self = Some R ->
+  (0 <= i < zlen hd)%Z -> py_index hd i = Some ev ->
+  gen_fill_associated_particles o_eta o_dphi o_sqrt self jet i (sel_str s) oc
+  = res_of (fill (dR_of o_eta o_dphi o_sqrt) R jet s oc ev).
+Proof. exact source_fill. Qed.
+Print Assumptions C20_source_fill.
+
+(* jet_hole_subtraction: component sums from 0.0 in list order, then jet - sum, reset in the order px py pz E *)
+Theorem C20_source_hole_subtraction :
+  forall (jet : vec4) (holes : list particle),
+  gen_jet_hole_subtraction jet holes = jet_hole_subtraction jet holes.
+Proof. exact source_hole_subtraction. Qed.
+Print Assumptions C20_source_hole_subtraction.
+
+(* write_jet_output = the model's: the omission test `perp() < upper bound` (equal to the model's comparison on
+   squares where perp() is the non-negative root of px^2+py^2 for this jet), the two row layouts, numbering from 1,
+   the event index, mode "a" unless new_file, the returned False *)
+Theorem C20_source_write :
+  forall o_perp o_eta o_phi self (fs : file) pt jet assoc i nf,
+  jet_pT_range_ self = Some pt -> perp_at o_perp jet -> bound_ok (snd pt) ->
+  gen_write_jet_output o_perp o_eta o_phi self fs jet assoc i nf
+  = (write_jet_output o_perp o_eta o_phi fs (snd pt) jet assoc i nf, POk false).
+Proof. exact source_write. Qed.
+Print Assumptions C20_source_write.
+
+(* perform_jet_finding = perform: parameter check first, the file created empty, events in order with their index,
+   JetDefinition(algorithm, R), inclusive_jets(lower pT bound), SelectorEtaRange(window), per jet: holes (negative,
+   not charged-only), associated (positive, charged-only as requested), subtraction, write in append mode.
+   Assumed: perp() is the non-negative root of px^2+py^2 on the hole-subtracted jets that are compared. *)
+Theorem C20_source_perform :
+  forall o_cluster o_perp o_eta o_phi o_dphi o_sqrt self (fs : file) evs al R eta pt ch,
+  (forall w p ev jet holes,
+     check_params (Params al R eta pt ch) = Ok (w, p) -> In ev evs ->
+     In jet (select o_cluster o_eta (Params al R eta pt ch) w p ev) ->
+     fill (dR_of o_eta o_dphi o_sqrt) R jet Negative false ev = Ok holes ->
+     perp_at o_perp (jet_hole_subtraction jet holes)) ->
+  gen_perform_jet_finding o_cluster o_perp o_eta o_phi o_dphi o_sqrt self fs evs R eta pt ch (GModel al)
+  = let a := Params al R eta pt ch in
+    let r := perform o_cluster o_perp o_eta o_phi (dR_of o_eta o_dphi o_sqrt) a fs evs in
+    (fst r, match snd r with
+            | Some e => PErr (exn_of e)
+            | None => match check_params a with
+                      | Ok (w, p) => POk (self_after self evs R w p, tt)
+                      | Err e => PErr (exn_of e)
+                      end
+            end).
+Proof. exact source_perform. Qed.
+Print Assumptions C20_source_perform.
+
+(* read_jet_data = the model's reader: what starts a new group, which column is parsed as int / float, the final
+   group, FileNotFoundError / ValueError, the attribute that receives the result; the file is not changed *)
+Theorem C20_source_read :
+  forall self (fs : file),
+  gen_read_jet_data self fs
+  = (fs, match read_jet_data fs with
+         | Ok d => POk (set_jet_data_ self (Some d), tt)
+         | Err e => PErr (exn_of e)
+         end).
+Proof. exact source_read. Qed.
+Print Assumptions C20_source_read.
+
+(* non-vacuity of the hypothesis of C20_source_perform, and the regenerated method run on that call *)
+Theorem C20_source_example :
+  (forall w p ev jet holes,
+     check_params (Params AntiKt 1 (Some 2, Some (-2)) (None, Some 6) true) = Ok (w, p) -> In ev sx_events ->
+     In jet (select sx_cluster sx_eta (Params AntiKt 1 (Some 2, Some (-2)) (None, Some 6) true) w p ev) ->
+     fill (dR_of sx_eta sx_dphi sx_sqrt) 1 jet Negative false ev = Ok holes ->
+     perp_at sx_perp (jet_hole_subtraction jet holes))
+  /\ List.length (content (fst sx_run)) = 2%nat
+  /\ (exists s, snd sx_run = POk (s, tt)).
+Proof. exact source_example. Qed.
+Print Assumptions C20_source_example.
